@@ -69,3 +69,20 @@ package ice
 //@ func (*Agent).validateNonSTUNTraffic$1
 //@   props C07
 //@   site call findRemoteCandidate#1 assert same-transport-and-source: arg1 == local.NetworkType() && arg2 == remote
+
+// The key of the per-candidate remote cache must identify the source exactly:
+// the 16 address bytes followed by the big-endian port (an imprecise key would
+// let an unknown source pass as a cache hit).
+//@ func toAddrPortKey
+//@   props C07
+//@   ghostvar valid bool = false
+//@   ghostvar portv int = 0
+//@   ghostvar a16 seq = a16zero()
+//@   site call IsValid#1 ghost valid := result
+//@   site call Port#1 ghost portv := result
+//@   site call As16#1 ghost a16 := result
+//@   ensures key-carries-the-whole-port: valid ==> 256*result[16] + result[17] == portv
+//@   ensures key-carries-the-whole-address: valid ==> forall j int :: 0 <= j && j < 16 ==> result[j] == a16[j]
+//@   ensures invalid-source-has-the-zero-key: !valid ==> forall j int :: 0 <= j && j < 18 ==> result[j] == 0
+
+//@ spec func a16zero() seq
